@@ -2168,9 +2168,20 @@ func (interp *Interpreter) cfg(root *node, sc *scope, importPath, pkgName string
 
 		case typeSwitch:
 			// Check that cases expressions are all different
+			// and that they can be the dynamic type of the operand.
+			guard := n.child[1].lastChild().child[0]
+			if err = check.typeAssertionExpr(guard, guard.typ); err != nil {
+				// The operand is not an interface.
+				return
+			}
 			usedCase := map[string]bool{}
 			for _, c := range n.lastChild().child {
 				for _, t := range c.child[:len(c.child)-1] {
+					if !t.typ.isNil() {
+						if err = check.typeAssertionExpr(guard, t.typ); err != nil {
+							return
+						}
+					}
 					tid := t.typ.id()
 					if usedCase[tid] {
 						err = c.cfgErrorf("duplicate case %s in type switch", t.ident)
